@@ -51,60 +51,95 @@ def factory_sites(path):
     return out
 
 
-def walk_calls(stmts, conds, alias, acc):
+YAML_CALLS = ('yaml.load', 'yaml.dump', 'yaml.load_all', 'yaml.dump_all', 'yaml.safe_load', 'yaml.safe_dump')
+
+
+def yaml_call_of(st):
+    """`yaml.X(...)`, `return yaml.X(...)`, `return cast(T, yaml.X(...))` -> (the call node, is_return)"""
+    v = None
+    ret = False
+    if isinstance(st, ast.Expr):
+        v = st.value
+    elif isinstance(st, ast.Return):
+        v = st.value
+        ret = True
+    if isinstance(v, ast.Call) and src(v.func) == 'cast' and len(v.args) == 2:
+        v = v.args[1]
+    if isinstance(v, ast.Call) and src(v.func) in YAML_CALLS:
+        return v, ret
+    return None, ret
+
+
+def walk_calls(stmts, conds, alias, acc, others):
+    """every leaf statement of a `__call__`: a yaml call site (-> acc) or something else (-> others)"""
     for st in stmts:
+        if isinstance(st, ast.Expr) and isinstance(st.value, ast.Constant):
+            continue
         if isinstance(st, ast.If):
-            walk_calls(st.body, conds + [src(st.test)], alias, acc)
-            walk_calls(st.orelse, conds + ['not (' + src(st.test) + ')'], alias, acc)
+            walk_calls(st.body, conds + [src(st.test)], alias, acc, others)
+            walk_calls(st.orelse, conds + ['not (' + src(st.test) + ')'], alias, acc, others)
         elif isinstance(st, ast.With):
             ctxs = ['with ' + ', '.join(src(i.context_expr) + (' as ' + src(i.optional_vars) if i.optional_vars else '')
                                           for i in st.items)]
-            walk_calls(st.body, conds + ctxs, alias, acc)
+            walk_calls(st.body, conds + ctxs, alias, acc, others)
         elif isinstance(st, (ast.For, ast.While, ast.Try)):
             raise Untranslatable('loop or try in a __call__: ' + src(st)[:60])
         else:
-            for node in ast.walk(st):
-                if isinstance(node, ast.Call) and src(node.func) in ('yaml.load', 'yaml.dump', 'yaml.load_all',
-                                                                      'yaml.dump_all', 'yaml.safe_load',
-                                                                      'yaml.safe_dump'):
-                    args = [alias.get(src(a), src(a)) for a in node.args]
-                    kwargs = [(k.arg, alias.get(src(k.value), src(k.value))) for k in node.keywords]
-                    if any(k.arg is None for k in node.keywords):
-                        raise Untranslatable('**kwargs in a yaml call')
-                    acc.append((conds, src(node.func), args, kwargs))
+            node, is_ret = yaml_call_of(st)
+            if node is not None:
+                args = [alias.get(src(a), src(a)) for a in node.args]
+                kwargs = [(k.arg, alias.get(src(k.value), src(k.value))) for k in node.keywords]
+                if any(k.arg is None for k in node.keywords):
+                    raise Untranslatable('**kwargs in a yaml call')
+                acc.append((conds, src(node.func), args, kwargs, is_ret))
+            else:
+                for n in ast.walk(st):
+                    if isinstance(n, ast.Call) and src(n.func) in YAML_CALLS:
+                        raise Untranslatable('yaml call inside another statement: ' + src(st)[:60])
+                others.append((conds, src(st)))
 
 
 def generate():
     sites = []
     setups = []
+    others = []
     for fname in ('loader.py', 'dumper.py'):
         for factory, cls, call, alias, setup in factory_sites(os.path.join(REPO, 'yatiml', fname)):
             setups.append((factory, setup))
             acc = []
-            walk_calls(call.body, [], alias, acc)
+            oth = []
+            walk_calls(call.body, [], alias, acc, oth)
+            for conds, text in oth:
+                others.append((factory, conds, text))
             if not acc:
                 raise Untranslatable('no yaml call found in {}.{}.__call__'.format(factory, cls))
             params = [a.arg for a in call.args.args][1:] + [a.arg for a in call.args.kwonlyargs]
-            for conds, callee, args, kwargs in acc:
-                sites.append((factory, cls, params, conds, callee, args, kwargs))
+            for conds, callee, args, kwargs, is_ret in acc:
+                sites.append((factory, cls, params, conds, callee, args, kwargs, is_ret))
     out = ['-- GENERATED by harness/translate_callsites.py from yatiml/loader.py and yatiml/dumper.py; do not edit.',
            'import YatimlModel.Model.CallSites',
            'namespace YatimlModel.Gen',
            'open YatimlModel',
            'def callSites : List CallSite := [']
     ents = []
-    for factory, cls, params, conds, callee, args, kwargs in sites:
+    for factory, cls, params, conds, callee, args, kwargs, is_ret in sites:
         ents.append('  {{ factory := {}, cls := {}, params := [{}], branch := [{}], callee := {}, '
-                    'args := [{}], kwargs := [{}] }}'.format(
+                    'args := [{}], kwargs := [{}], returned := {} }}'.format(
                         lean_str(factory), lean_str(cls), ', '.join(lean_str(p) for p in params),
                         ', '.join(lean_str(c) for c in conds), lean_str(callee),
                         ', '.join(lean_str(a) for a in args),
-                        ', '.join('({}, {})'.format(lean_str(k), lean_str(v)) for k, v in kwargs)))
+                        ', '.join('({}, {})'.format(lean_str(k), lean_str(v)) for k, v in kwargs),
+                        'true' if is_ret else 'false'))
     out.append(',\n'.join(ents))
     out.append(']')
     out.append('/-- the statements of each factory that build and configure its Loader / Dumper class -/')
     out.append('def factorySetup : List (String × List String) := [')
     out.append(',\n'.join('  ({}, [{}])'.format(lean_str(f), ', '.join(lean_str(x) for x in st)) for f, st in setups))
+    out.append(']')
+    out.append('/-- every other leaf statement of a `__call__`, with the branch it sits in -/')
+    out.append('def otherStatements : List (String × List String × String) := [')
+    out.append(',\n'.join('  ({}, [{}], {})'.format(lean_str(f), ', '.join(lean_str(c) for c in conds), lean_str(t))
+                          for f, conds, t in others))
     out.append(']')
     out.append('end YatimlModel.Gen')
     text = '\n'.join(out) + '\n'
